@@ -9,7 +9,7 @@ Model: `MakoModel/ModFile/Model.lean`.  The writer is the *regenerated* primitiv
 magic number, the two re-check reasons (`magicRecheck`, `fileRecheck`), "writes until complete"
 (`writeLoops`), "drops the cached bytecode after a write" (`dropsBytecode`) and the `verify_directory` bound
 are regenerated as well; each is tied to the proofs by a `decide`d obligation (`writerOps_safe`,
-`writeLoops_on`, `dropsBytecode_on`, `staleCmp_is_lt`, `magicRecheck_on`, `fileRecheck_on`, …), so that a
+`writeLoops_on`, `dropsBytecode_on`, `dropsBytecodeHook_on`, `mtimes_whole_seconds`, `staleCmp_is_lt`, `magicRecheck_on`, `fileRecheck_on`, …), so that a
 change of the code either keeps the obligations or breaks a named one.
 
 All theorems quantify over **all histories** (`List HOp`: modify the source with any mtime, delete the
@@ -70,7 +70,7 @@ theorem writer_called_iff_due (eff : Content → FS → FS) (w0 : World) (h : Li
       (construct (hookWriter eff) (runH w0 h) p).calls.length = 1) := by
   obtain ⟨hgood, hcoh⟩ := runH_inv h w0 hh hw0
   exact ⟨hook_called_iff eff _ p hgood hcoh, hook_calls_ok eff _ p,
-    fun hinst hdue => hook_called_once eff _ p hgood hcoh (Or.inl dropsBytecode_on) hinst hdue⟩
+    fun hinst hdue => hook_called_once eff _ p hgood hcoh (Or.inl dropsBytecodeHook_on) hinst hdue⟩
 
 example : (construct (hookWriter fun c fs => fs.set .mod (some ⟨c, 0⟩)) (runH World.init exHist) {}).calls
     = [(⟨4, magicNumber, true, 4, 1, 0⟩, .mod)] := by decide
